@@ -17,7 +17,8 @@ RULE = ("Discounted POMDP specs (2-4 states, 1-3 actions, 1-3 observations, with
         "(exact k-step optimum V*_k, and brackets L_d <= V* <= U_d with sound leaf bounds), reference MDP solve for "
         "QMDP. Non-trivial: >=2 observations with an informative kernel, >=2 actions with different rewards and a "
         "non-vertex belief; distinct by spec hash."
-        " Also: explicit horizons of 30-200 with rewards in a narrow band far from zero and the relation 'ended before the horizon => ended through the threshold'; lower side of the point-based value in fully observable POMDPs; a 'linger' gadget.")
+        " Also: explicit horizons of 30-200 with rewards in a narrow band far from zero and the relation 'ended before the horizon => ended through the threshold'; lower side of the point-based value in fully observable POMDPs; a 'linger' gadget."
+        ' Alpha vectors judged at beliefs outside the belief set; belief sets that do not cover the state space; the lower side only with the default-sized expansion budget.')
 ASSUMPTIONS = ["the k-step optimal value is computed by an independent float expectimax (depth <= 5)",
                "with the default horizon (None) the iteration count is not observable from plan_on, so only the weaker "
                "bound value <= U_d + max(0,-r_min)/(1-gamma) is asserted there"]
